@@ -40,7 +40,7 @@ pub fn translate_query(query: RelationalQuery, dialect: Option<Dialect>) -> Resu
             recursive = recursive || rec;
         }
         query.with = Some(sql_ast::With {
-            recursive,
+            recursive: recursive && ctx.dialect.with_recursive_keyword(),
             cte_tables,
             with_token: sqlparser::ast::helpers::attached_token::AttachedToken::empty(),
         });
